@@ -47,6 +47,8 @@ def gen_cases(rng, tier):
     groute = "api" if route.startswith("api") else "potable"
     kind = rng.choice(["eam", "fs"])
     model = spec.gen_eam_model(rng, kind, groute, target="DL_POLY_EAM" if kind == "eam" else "DL_POLY_EAM_fs")
+    if i % 12 == 7:
+      model = spec.numeric_species(rng, model)      # species labelled '9', '10', '2', '100'
     if groute == "api":
       model["api_containers"] = rng.choice([None, None, "tuple", "generator", "map", "amend_after_write"])
       model["api_extra_density_keys"] = (i % 3 == 0)
